@@ -161,6 +161,25 @@ func VF_C18_b() {
 	vf.Observe("consumed", p.R)
 }
 
+// C18.b (limit boundary): a frame that announces MORE than MaxPayloadLength is refused on its header alone: the stream
+// holds exactly the 48 header bytes (arbitrary but for the announced length: MaxPayloadLength+1, or the largest uint32)
+// and ReadMsg answers with an error after the single read that delivered the header: it does not go back to the stream
+// for a body (which it could only do after allocating a buffer of the announced size).
+func VF_C18_b_limit() {
+	p := vf.NewPipe()
+	hdr := vf.Bytes("hdr", msgHeaderLength)
+	l := [2]uint32{p2pcommon.MaxPayloadLength + 1, 0xFFFFFFFF}[vf.Choice("announced", 2)]
+	hdr[4], hdr[5], hdr[6], hdr[7] = byte(l>>24), byte(l>>16), byte(l>>8), byte(l)
+	p.Buf = append(p.Buf, hdr...)
+	r := NewV030ReadWriter(p, nil, p)
+	got, err := r.ReadMsg()
+	vf.Reach("C18.b.limit")
+	vf.Assert(err != nil, "C18.b.limit")
+	vf.Assert(got == nil, "C18.b.limit")
+	vf.Assert(p.Reads == 1, "C18.b.limit")
+	vf.Observe("reads", p.Reads)
+}
+
 // vfSubString replaces (SubProtocol).String inside C18.b (it only feeds the error text; its own totality is C18.b.str).
 func vfSubString(i p2pcommon.SubProtocol) string { return "sub" }
 
